@@ -81,6 +81,8 @@ pub fn run_cstrnew(args: &[&str]) -> String {
 fn txt_from(strs: &[Vec<u8>]) -> Option<TXT<'static>> {
     let mut t = TXT::new();
     for s in strs {
+        // reading between the additions must not change what is read afterwards
+        let _ = t.attributes();
         t.add_char_string(CharacterString::new(s).ok()?.into_owned());
     }
     Some(t)
